@@ -810,3 +810,17 @@ Proof.
   assert (Hc : x = 0 \/ x = 1 \/ x = 2 \/ x = 4) by lia.
   destruct Hc as [->|[->|[->| ->]]]; vm_compute; reflexivity.
 Qed.
+
+(* ---------- create + search + consumer, end to end ---------- *)
+Theorem bh_rows_exact_built_thm : forall d piv nth N q K,
+  metric_on (in_range N) d -> piv_ok piv -> nth_oracle_ok d nth ->
+  in_range N q -> (K + 1 <= N)%nat ->
+  exists t l, build d piv nth (S N) 0 (samples N) = Built t /\
+              bh_row_fixed d t q K = Some l /\ is_knn d N q K l.
+Proof.
+  intros d piv nth N q K Hm Hp Hn Hq HK.
+  destruct (build_inv_thm d piv nth Hp Hn (S N) 0%nat (samples N)) as (t & Eb & Hinv & Hperm).
+  { unfold samples. rewrite zseq_length. lia. }
+  destruct (bh_neighbours_exact_fixed_thm d N t q K Hm Hq HK Hinv (Permutation_sym Hperm)) as (l & El & Hl).
+  now exists t, l.
+Qed.
